@@ -28,7 +28,7 @@ PROPS = {
     "C01": dict(streams=[diff("mixed", 3000, 60000), diff("extreme", 300, 6000), diff("twins", 500, 8000), diff("subms", 300, 4000)], rule=RULE, trusted_base=COMMON_TB),
     "C02": dict(streams=[diff("selector", 3000, 40000), orc("procs", "selector", 100, 1500), diff("twins", 600, 8000), orc("kernel", "kernel", 2000, 40000), orc("sequence", "sequence", 150, 2000)], rule=RULE + "; kernel = selectPoint over Prometheus' real MemoizedSeriesIterator vs the Lean iterator model and the declarative selection, on irregular series with gaps and staleness markers", trusted_base=COMMON_TB),
     "C03": dict(streams=[diff("rangefn", 3000, 40000), orc("kernel", "kernel", 2000, 40000)], rule=RULE, trusted_base=COMMON_TB),
-    "C04": dict(streams=[diff("agg", 3000, 40000), diff("kagg", 300, 5000), diff("aggparam", 400, 6000)], rule=RULE, trusted_base=COMMON_TB),
+    "C04": dict(streams=[diff("agg", 3000, 40000), diff("kagg", 300, 5000), diff("aggparam", 400, 6000), orc("kernel", "kernel", 2000, 40000)], rule=RULE, trusted_base=COMMON_TB),
     "C05": dict(streams=[diff("binary", 3000, 40000), orc("kernel", "kernel", 2000, 40000)], rule=RULE, trusted_base=COMMON_TB),
     "C06": dict(streams=[diff("func", 3000, 40000), diff("twins", 400, 6000), diff("hist", 400, 6000)], rule=RULE, trusted_base=COMMON_TB),
     "C07": dict(streams=[orc("rangeinst", "mixed", 400, 6000), orc("rangeinst", "rangefn", 200, 3000), orc("rangeinst", "func", 300, 4000)], rule=RULE, trusted_base=COMMON_TB),
